@@ -107,7 +107,13 @@ SOURCES = {
     "slice": ("xs", "xs.iter()", "xs.iter().rev()", "R", False),
     "range": ("(2u32..2 + xs.len() as u32)", "(2u32..2 + xs.len() as u32)", "(2u32..2 + xs.len() as u32).rev()", "V", False),
     "nested": ("ys", "ys.iter()", "ys.iter().rev()", "A", True),
+    # added in round 8: a konst iterator value (not an IntoIterKind::IsStdKind collection) and the inclusive range
+    "iter_copied": ("konst::slice::iter_copied(xs)", "xs.iter().copied()", "xs.iter().copied().rev()", "V", False),
+    "range_incl": ("(2u32..=1 + xs.len() as u32)", "(2u32..=1 + xs.len() as u32)", "(2u32..=1 + xs.len() as u32).rev()", "V", False),
 }
+
+# std's RangeInclusive<u32> is not an ExactSizeIterator: no rposition / rev-after-enumerate on the std side
+NOT_EXACT_SIZE = {"range_incl"}
 
 
 class Prog:
@@ -217,14 +223,14 @@ def all_programs(max_depth):
             if len(ads) < max_depth:
                 for (a, ns, nd, ne) in adapters_for(state, dei, esi, has_rev):
                     rec(ns, nd, ne, has_rev or a.name == "rev", ads + [a])
-        rec(st0, True, True, False, [])
+        rec(st0, True, src not in NOT_EXACT_SIZE, False, [])
     return progs
 
 
 def random_program(rnd, dmin, dmax):
     while True:
         src = rnd.choice(list(SOURCES))
-        state, dei, esi, has_rev, ads = SOURCES[src][3], True, True, False, []
+        state, dei, esi, has_rev, ads = SOURCES[src][3], True, src not in NOT_EXACT_SIZE, False, []
         depth = rnd.randint(dmin, dmax)
         ok = True
         while len(ads) < depth:
@@ -366,7 +372,7 @@ def cc_programs(rnd, count, max_depth):
         tries += 1
         src = rnd.choice(list(SOURCES))
         nlit = rnd.randint(0, 3)
-        state, dei, esi, has_rev, ads = SOURCES[src][3], True, True, False, []
+        state, dei, esi, has_rev, ads = SOURCES[src][3], True, src not in NOT_EXACT_SIZE, False, []
         depth = rnd.randint(0, max_depth)
         while len(ads) < depth or state == "A":
             a, state, dei, esi = rnd.choice(adapters_for(state, dei, esi, has_rev, nlit))
@@ -682,7 +688,7 @@ def run(out, tier, seed):
     evals += run_argument_expressions(cx, out, hist)
     out.add_counts("generated-programs", evals, "c10-programs", nontrivial, samples,
                    rule="one evaluation = one generated program (konst eval!/for_each!/collect_const! chain) on one input, compared with the identical std method chain and, when the chain reverses, with the std chain whose reversal is hoisted to the source (three-way oracle S/H/K1, DESIGN.md §6/C10); distinct_nontrivial = number of distinct generated programs with at least one adapter",
-                   exhaustive="every type-correct chain of depth <= %d (quick tier: plus every depth-3 chain containing rev() with the for_each/fold consumers) over {copied,map,map-to-pair,filter,filter_map,flat_map,flatten,enumerate,zip(shorter|longer),skip,take,skip_while,take_while,rev} x 3 sources (slice, range, nested slice+flatten) x every consumer (%d programs) + %d seeded random chains of depth %s; each over all arrays of length <= 4 over {0,1,4,6} (341; nested source: 91) x n in 0..=3; %d collect_const! programs x 4-6 const inputs" % (3 if thorough else 2, exhaustive_n, nrand, "4-6" if thorough else "3-5", len(ccs)),
+                   exhaustive="every type-correct chain of depth <= %d (quick tier: plus every depth-3 chain containing rev() with the for_each/fold consumers) over {copied,map,map-to-pair,filter,filter_map,flat_map,flatten,enumerate,zip(shorter|longer),skip,take,skip_while,take_while,rev} x 5 sources (slice, range, inclusive range, slice::iter_copied, nested slice+flatten) x every consumer (%d programs) + %d seeded random chains of depth %s; each over all arrays of length <= 4 over {0,1,4,6} (341; nested source: 91) x n in 0..=3; %d collect_const! programs x 4-6 const inputs" % (3 if thorough else 2, exhaustive_n, nrand, "4-6" if thorough else "3-5", len(ccs)),
                    hist=hist)
     out.counters["programs_generated"] = len(progs) + len(ccs)
     out.counters["programs_failed_to_compile"] = compile_fail_programs
